@@ -24,7 +24,17 @@ import (
 	"verif/internal/sym"
 )
 
-const verifDir = "/verif"
+// verifDir and repoDir are fixed in registered commands; the environment overrides exist for
+// developing the machinery against a scratch copy while a registered run is in progress.
+var verifDir = envOr("VERIF_DIR", "/verif")
+var repoDir = envOr("VERIF_REPO", "/repo")
+
+func envOr(k, d string) string {
+	if v := os.Getenv(k); v != "" {
+		return v
+	}
+	return d
+}
 
 func main() {
 	if len(os.Args) < 2 {
